@@ -57,7 +57,8 @@ pub fn generate(verif_seed: u64, idx: u64, property: &str, thorough: bool) -> Sc
     // arguments — per-ruleset counters, budgets, intern tables and bounded caches only show at volume
     let volume = thorough && rng.chance(1, 1500);
     if volume {
-        let n = 1000 + rng.below(75_000) as u32;
+        // half of the volume runs cross 2^16
+        let n = if rng.chance(1, 2) { 66_000 + rng.below(10_000) as u32 } else { 1000 + rng.below(75_000) as u32 };
         let f = crate::gen::fn_for(*rng.pick(&[Ty::Int, Ty::Str, Ty::Bool]));
         scn.rules.push(RuleSpec { name: "volume".into(), expr: X::ManyCalls(f.to_string(), 1_000_000, n) });
     }
@@ -113,6 +114,10 @@ pub fn generate(verif_seed: u64, idx: u64, property: &str, thorough: bool) -> Sc
         scn.behaviour.extend(random_behaviour(&mut rng, t, 40, p_susp, 3));
     }
     if volume {
+        // the first evaluation parks for a very long virtual time early on: others start, run their
+        // volume and finish while it still holds whatever it acquired before
+        scn.behaviour.retain(|b| !(b.task == 0 && b.call <= 2));
+        scn.behaviour.push(Beh { task: 0, call: rng.below(3) as u32, susp: vec![Susp::Deferred(3_600_000_000_000)], panic: false });
         // a few suspensions deep inside the volume rule as well, so that evaluations overlap there
         for t in 0..ntasks {
             for _ in 0..6 {
@@ -190,6 +195,7 @@ pub fn generate(verif_seed: u64, idx: u64, property: &str, thorough: bool) -> Sc
         3 => (0, 300),     // slow executor: clock runs ahead of runnable tasks
         _ => (50, 50),
     };
+    let p_adv = if volume { 0 } else { p_adv };
     scn.picks = random_picks(&mut rng, 200 + 4 * total.min(500), total, p_spur, p_adv);
     scn.exec.fresh_waker = rng.chance(1, 4);
     scn.exec.max_steps = 3000 + 40 * total as u32 + if volume { 600_000 } else { 0 };
